@@ -268,10 +268,36 @@ def stack_rules(ctx: Ctx, fi, loop, out: str) -> None:
         kept = events_matching(exits, lambda e: e[0] == "append" and e[1] == out and e[2] == "msg", kinds=("end",))
         kinds = {k for k, _ in exits}
         got = "keep" if kinds == {"end"} and kept == (1, 1) else ("skip" if kinds == {"continue"} else f"mixed({sorted(kinds)}, appended {kept})")
+        post = set()
+        for k, st_ in exits:
+            if k in ("end", "continue"):
+                post |= set(st_.vals.get("$len", frozenset([L])))
+        want_post = {L + 1} if T == "NOTE_ON" else {max(L - 1, 0)}
+        ctx.check(post == want_post, "STACK", f"{FN}: {T} with {L if L < 2 else '2+'} open note(s): afterwards {sorted(post)} are counted as open", function=FN,
+                  construct=f"{T} arriving with {L if L < 2 else 'several'} open note(s) leaves the wrong number of open notes"
+                  if post != want_post else "ok",
+                  message=f"the nesting count after the event is {sorted(post)}, expected {sorted(want_post)}: every note-on (also a dropped re-trigger) "
+                          f"must be counted and every note-off of an open note must uncount one, otherwise overlapping notes are closed at the first "
+                          f"end instead of the last", file=fi.file, node=loop)
         ctx.check(got == w, "STACK", f"{FN}: {T} with {L if L < 2 else '2+'} open note(s) of its channel and pitch -> {got}", function=FN,
                   construct=f"{T} arriving with {L if L < 2 else 'several'} open note(s) is {'kept' if got == 'keep' else 'not handled as required'}"
                   if got != w else "ok",
                   message=f"expected `{w}` ({why[(T, L)]}), the code does `{got}`", file=fi.file, node=loop)
+    for n in ast.walk(loop):
+        if isinstance(n, ast.Assign) and isinstance(n.targets[0], ast.Name) and n.targets[0].id == stack and isinstance(n.value, ast.Call) \
+                and call_method(n.value)[1] == "get":
+            blk = _block_of(n)
+            stores = [x for x in blk if isinstance(x, ast.Assign) and isinstance(x.targets[0], ast.Subscript) and isinstance(x.value, ast.Name)
+                      and x.value.id == stack and x.lineno > n.lineno]
+            muts = [x.lineno for y in blk for x in ast.walk(y) if isinstance(x, ast.Call) and isinstance(x.func, ast.Attribute)
+                    and x.func.attr in ("append", "pop", "insert", "remove") and isinstance(x.func.value, ast.Name) and x.func.value.id == stack and x.lineno > n.lineno]
+            first_mut = min(muts, default=None)
+            if first_mut is None:
+                continue
+            first_exit = min([x.lineno for y in blk for x in ast.walk(y) if isinstance(x, ast.Continue) and x.lineno > first_mut], default=10**9)
+            ctx.check(bool(stores) and stores[0].lineno < first_exit, "STACK", f"{FN}: a stack fetched with .get(key, []) is stored back after it was changed, before the event is decided",
+                      function=FN, construct="open-note stack fetched with a fresh default list is not stored back",
+                      message="a first note-on / note-off of a pitch would work on a throw-away list", file=fi.file, node=n)
     # LIFO: only the first-pushed note-on is in the output, so it must stay on the stack until the stack empties
     pops = [c for c in ast.walk(loop) if isinstance(c, ast.Call) and isinstance(c.func, ast.Attribute) and c.func.attr == "pop"
             and isinstance(c.func.value, ast.Name) and c.func.value.id == stack]
